@@ -5301,12 +5301,43 @@ class System(object, metaclass=SystemMetaclass):
             if options['record_residuals'] and residuals._names:
                 data['residual'] = self._retrieve_data_of_kind(filt, 'residual', vec_name, local)
 
+            if vec_name == 'nonlinear' and self._recording_iter.stack:
+                # during a run the vectors are in their scaled state: record physical values
+                self._scaled_vals_to_phys(data['output'], outputs, self._has_output_scaling)
+                self._scaled_vals_to_phys(data['residual'], residuals, self._has_resid_scaling)
+
             self._rec_mgr.record_iteration(self, data, metadata)
 
         # All calls to _solve_nonlinear are recorded, The counter is incremented after recording.
         self.iter_count += 1
         if not self.under_approx:
             self.iter_count_without_approx += 1
+
+    def _scaled_vals_to_phys(self, vals, vec, has_scaling):
+        """
+        Replace values read from a vector in its scaled state by the physical values.
+
+        The vector itself is left untouched.
+
+        Parameters
+        ----------
+        vals : dict
+            Values keyed on absolute name (updated in place with new arrays).
+        vec : <Vector>
+            The nonlinear output or residual vector the values were read from.
+        has_scaling : bool
+            True if the vector is scaled.
+        """
+        if not (has_scaling and vals and vec._scaling):
+            return
+        scaler, adder = vec._scaling
+        for name, val in vals.items():
+            if vec._contains_abs(name):
+                start, stop = vec.get_range(name)
+                phys = np.asarray(val, dtype=float).ravel() * scaler[start:stop]
+                if adder is not None:
+                    phys = phys + adder[start:stop]
+                vals[name] = phys.reshape(np.shape(val))
 
     def _clear_iprint(self):
         """
